@@ -429,14 +429,14 @@ def _run_write(case):
     names = {"d1": "A", "d2": "a b", "i1": "a,b", "m1": 'a"b', "s1": "S", "e0": "E"}
     try:
         keys = [k for k in cols]
-        for combo in itertools.permutations(keys, n):
+        for combo in itertools.product(keys, repeat=n):  # (a result may be listed more than once: one column per LISTED name)
             lens = {len(cols[k]()) for k in combo}
             if len(lens) != 1:
                 continue
             p = _program(work)
             C.TABLE.clear()
             C.TABLE.update(cols)
-            for k in combo:
+            for k in dict.fromkeys(combo):
                 p.add_command(p.find_command_class("ConstNF"), names[k], {"Key": k})
             p.add_command(p.find_command_class("EEMSWrite"), "W", {"OutFileName": "out.csv", "OutFieldNames": [names[k] for k in combo]})
             evals += 1
